@@ -178,7 +178,7 @@ func frameCheck(e *Env, sum bool) {
 		r.Explain("Oracle: trailer (last 4 appended bytes, module byte order) == the frame object's Checksum after Encode == own implementation of the exchange algorithm (byte sum mod 256 for SSE/SZSE, bitwise reflected CRC-32 for sample) over exactly the appended bytes from the first header byte through the last body byte — i.e. including the corrected length field and excluding whatever was in the buffer before.")
 	}
 	r.Assume("frame positions come from the pinned schema", "the checksum services are registered under their built-in names (start-up state)")
-	reps := e.N(1, 12)
+	reps := e.N(3, 60)
 	byHist := newFeatAcc()
 	frameWorkload(e, sum, reps, func(o *frameObs) {
 		t, fi := o.t, o.fi
@@ -220,7 +220,7 @@ func frameCheck(e *Env, sum bool) {
 				refBody = len(rb)
 			}
 			if bodyLen > 0 {
-				r.Distinct(val.Hash(o.caseID[:strings.LastIndex(o.caseID, "/rep")]) + uint64(o.hist))
+				r.Distinct(val.Hash(o.caseID))
 			}
 			if tok != uint64(bodyLen) || obj != uint64(bodyLen) || refBody != bodyLen {
 				r.Violate(prop+"/length/"+t.QName+"/"+histNames[o.hist], prop+"/length/"+t.QName, det(map[string]any{
